@@ -3,8 +3,10 @@
 (* State validation for C04.  One record = one real build of one scenario  *)
 (* of ShakeGen.tla:                                                         *)
 (*  - the linker's decisions projected by the link.done hook (per file:     *)
-(*    live, entry, side-effects-free; per part: live, CanBeRemovedIfUnused, *)
+(*    live, entry, side-effects-free, wrap kind, for an entry point what    *)
+(*    each export resolves to; per part: live, CanBeRemovedIfUnused,        *)
 (*    ForceTreeShaking, dependencies, statement-level import targets),      *)
+(*  - the exports of the entry point read after loading (native / bundle),  *)
 (*  - where the statement under test ended up (the parts between the        *)
 (*    sentinel declarations `before` and `after`),                          *)
 (*  - the GROUND TRUTH of that statement (run alone natively: yes/no/ann),  *)
@@ -55,6 +57,27 @@ REntriesLive(d, l) == HasLink => EntriesLive(d, l)
 \* sideEffects:false reaches only the files the annotation covers
 RAnnotationScoped == HasLink => \A f \in FileIds : FileRec(f).seFree => FileRec(f).annotated
 
+\* ---- EXPORTED BINDINGS ARE INITIALISED (Shake.tla ExportsInitialisedOn on the real data):
+\* whatever an entry point exports resolves (ResolvedExports / ImportsToBind, projected
+\* independently of the dependencies of the entry point's dummy part) to declaring
+\* parts that are live in a live file; and for every import / re-export statement
+\* passed on the way (importData.ReExports) that names a WRAPPED file, some live
+\* part of the same file imports that wrapped file -- that part is what becomes
+\* the init_x() / require_x() call, without it the export is never initialised
+Shift(s) == {<<q[1], q[2] + 1>> : q \in ToSet(s)}
+RExportsInitialised(d, l) ==
+  HasLink => \A f \in d.entry : \A k \in 1..Len(FileRec(f).exps) :
+     LET x == FileRec(f).exps[k] IN
+       /\ x.file \in l.files
+       /\ (Shift(x.decl) \cap PartRefs(d)) \subseteq l.parts
+       /\ \A v \in Shift(x.reExports) \cap PartRefs(d) : \A w \in PartAt(d, v).srecs :
+             (w \in FileIds /\ FileRec(w).wrap # "none") =>
+                \E q \in PartRefs(d) : q[1] = v[1] /\ q \in l.parts /\ w \in PartAt(d, q).srecs
+\* the design is stricter: every declaring part and every statement passed is live
+RExportDepsLive(d, l) ==
+  HasLink => \A f \in d.entry : \A k \in 1..Len(FileRec(f).exps) :
+     ((Shift(FileRec(f).exps[k].decl) \cup Shift(FileRec(f).exps[k].reExports)) \cap PartRefs(d)) \subseteq l.parts
+
 \* ---- soundness of the classifier against the native ground truth
 SlotParts == {<<Rec.slot.file, k + 1>> : k \in ToSet(Rec.slot.parts)}
 Effectful == Rec.truth = "yes"
@@ -91,6 +114,9 @@ Compared == Rec.built /\ ~Rec.rskip
 RBundleWithinNative == Compared => IsSubseq(Rec.bun, Rec.nat)
 \* ... and everything that may not vanish survives (without annotations: everything)
 RObservableKept == Compared => IsSubseq(MustSurvive, Rec.bun)
+\* every export of the entry point, read right after loading the bundle, has the
+\* value / typeof / call result it has in the native module graph
+RExportsObserved == (Compared /\ Rec.xcmp) => Rec.bunX = Rec.natX
 \* the output never references a binding whose declaration was removed
 RNoDanglingRef == Rec.built => Len(Rec.dangling) = 0
 
@@ -113,7 +139,10 @@ FailingOf(d, l) ==
   (IF REffectsKept(d, l) THEN {} ELSE {"EffectsKept"}) \cup
   (IF RBundleWithinNative THEN {} ELSE {"BundleWithinNative"}) \cup
   (IF RObservableKept THEN {} ELSE {"ObservableKept"}) \cup
-  (IF RNoDanglingRef THEN {} ELSE {"NoDanglingRef"})
+  (IF RNoDanglingRef THEN {} ELSE {"NoDanglingRef"}) \cup
+  (IF RExportsInitialised(d, l) THEN {} ELSE {"ExportsInitialised"}) \cup
+  (IF RExportDepsLive(d, l) THEN {} ELSE {"ExportDepsLive"}) \cup
+  (IF RExportsObserved THEN {} ELSE {"ExportsObserved"})
 Drifts ==
   (IF DriftTruth THEN {"truth"} ELSE {}) \cup
   (IF DriftThrow THEN {"throw"} ELSE {}) \cup
